@@ -1643,7 +1643,12 @@ int x509_certs_get_cert_by_subject(const uint8_t *d, size_t dlen,
 	const uint8_t *subj;
 	size_t subj_len;
 
-	while (dlen) {
+	while (dlen)
+	VERIF_LOOP_ASSIGNS(d, dlen, *cert, *certlen, subj, subj_len, verif_l_ne_last, verif_l_ne_a_of, verif_l_gs_of, verif_l_calls)
+	VERIF_LOOP_INVARIANT(dlen <= VERIF_LOOP_ENTRY(dlen))
+	VERIF_LOOP_INVARIANT(d == VERIF_LOOP_ENTRY(d) + (VERIF_LOOP_ENTRY(dlen) - dlen))
+	VERIF_LOOP_DECREASES(dlen)
+	{
 		if (x509_cert_from_der(cert, certlen, &d, &dlen) != 1) {
 			error_print();
 			return -1;
